@@ -988,6 +988,130 @@ func tmCallSites(fset *token.FileSet, repo string) (string, error) {
 		len(us) == 5 && us[0] == normText("patternString := l.unwrapStringExpr(filter)") &&
 			strings.HasPrefix(us[1], normText("if patternString == \"\" {return nil, l.errorf(")) &&
 			us[2] == normText("re, err := textmatch.Compile(patternString)") && has(us, "return re, nil") && us[4] == normText("return re, nil"))
+	// ---- what survives from one Run() to the next when a RunnerState is reused, and that each run's predicates read this
+	// run's context and file name
+	rgf, err := parser.ParseFile(fset, repo+"/ruleguard/ruleguard.go", nil, 0)
+	if err != nil {
+		return "", err
+	}
+	rnf, err := parser.ParseFile(fset, repo+"/ruleguard/runner.go", nil, 0)
+	if err != nil {
+		return "", err
+	}
+	knownState := map[string]string{"gogrepState": "gogrep.MatcherState", "gogrepSubState": "gogrep.MatcherState", "nodePath": "*nodePath",
+		"evalEnv": "*quasigo.EvalEnv", "typematchState": "*typematch.MatcherState", "object": "*rulesRunner"}
+	stateOK, stateSeen := true, 0
+	for _, f := range []*ast.File{rgf, rnf} {
+		ast.Inspect(f, func(n ast.Node) bool {
+			ts, ok := n.(*ast.TypeSpec)
+			if !ok || ts.Name.Name != "RunnerState" {
+				return true
+			}
+			st, ok := ts.Type.(*ast.StructType)
+			if !ok {
+				stateOK = false
+				return false
+			}
+			for _, fld := range st.Fields.List {
+				if len(fld.Names) == 0 {
+					stateOK = false // an embedded field: unknown state
+				}
+				for _, nm := range fld.Names {
+					stateSeen++
+					if knownState[nm.Name] != exprString(fset, fld.Type) {
+						stateOK = false
+					}
+				}
+			}
+			return false
+		})
+	}
+	add("RunnerState holds the known fields only (matcher states, node path, eval env, the runner object): nothing in it can keep a predicate's answer",
+		stateOK && stateSeen == len(knownState))
+	nrr := find(rnf, "newRulesRunner")
+	wholesale, flowsOK, ctxOK := false, true, false
+	if nrr != nil && nrr.Type.Params.NumFields() >= 1 && len(nrr.Type.Params.List[0].Names) > 0 {
+		ctxName := nrr.Type.Params.List[0].Names[0].Name
+		stateVar := ""
+		for _, st := range nrr.Body.List {
+			as, ok := st.(*ast.AssignStmt)
+			if !ok || len(as.Lhs) != 1 || len(as.Rhs) != 1 {
+				continue
+			}
+			if as.Tok == token.DEFINE && exprString(fset, as.Rhs[0]) == ctxName+".State" {
+				stateVar = exprString(fset, as.Lhs[0])
+			}
+			// *rr = rulesRunner{...}: a top-level, unconditional statement
+			if star, ok := as.Lhs[0].(*ast.StarExpr); ok && as.Tok == token.ASSIGN {
+				if cl, ok := as.Rhs[0].(*ast.CompositeLit); ok && exprString(fset, cl.Type) == "rulesRunner" && exprString(fset, star.X) == "rr" {
+					wholesale = true
+					for _, el := range cl.Elts {
+						kv, ok := el.(*ast.KeyValueExpr)
+						if !ok || exprString(fset, kv.Key) != "filterParams" {
+							continue
+						}
+						if fp, ok := kv.Value.(*ast.CompositeLit); ok {
+							for _, el2 := range fp.Elts {
+								if kv2, ok := el2.(*ast.KeyValueExpr); ok && exprString(fset, kv2.Key) == "ctx" && exprString(fset, kv2.Value) == ctxName {
+									ctxOK = true
+								}
+							}
+						}
+					}
+				}
+			}
+		}
+		// every use of the state inside newRulesRunner is one of the known fields (or Reset())
+		if stateVar == "" {
+			flowsOK = false
+		} else {
+			ast.Inspect(nrr.Body, func(n ast.Node) bool {
+				sel, ok := n.(*ast.SelectorExpr)
+				if !ok {
+					return true
+				}
+				if id, ok := sel.X.(*ast.Ident); ok && id.Name == stateVar {
+					if _, known := knownState[sel.Sel.Name]; !known && sel.Sel.Name != "Reset" {
+						flowsOK = false
+					}
+				}
+				return true
+			})
+		}
+	} else {
+		flowsOK = false
+	}
+	add("newRulesRunner overwrites the whole runner object (*rr = rulesRunner{...}) and only the known parts of the reused state flow into it", wholesale && flowsOK)
+	add("newRulesRunner: the predicates' filterParams.ctx is the context of this run", ctxOK)
+	// run(): the file name of this run, stored unconditionally; no other assignment to either field in runner.go
+	runFn := (*ast.FuncDecl)(nil)
+	for _, d := range rnf.Decls {
+		if fd, ok := d.(*ast.FuncDecl); ok && fd.Name.Name == "run" && fd.Recv != nil {
+			runFn = fd
+		}
+	}
+	nameTop := 0
+	if runFn != nil {
+		for _, st := range runFn.Body.List {
+			switch normStmt(fset, st) {
+			case normText("rr.filename = rr.ctx.Fset.Position(f.Pos()).Filename"), normText("rr.filterParams.filename = rr.filename"):
+				nameTop++
+			}
+		}
+	}
+	nameAssigns := 0
+	ast.Inspect(rnf, func(n ast.Node) bool {
+		if as, ok := n.(*ast.AssignStmt); ok {
+			for _, l := range as.Lhs {
+				if t := exprString(fset, l); t == "rr.filename" || t == "rr.filterParams.filename" || strings.HasSuffix(t, "filterParams.filename") {
+					nameAssigns++
+				}
+			}
+		}
+		return true
+	})
+	add("run: the file name the predicates see is that of the file being run, stored unconditionally at the top of run() and assigned nowhere else",
+		nameTop == 2 && nameAssigns == 2)
 	var sb strings.Builder
 	sb.WriteString("Require Import Coq.Strings.String.\n(* the predicate call sites and the loader's compile sites; false = not of the expected form *)\n")
 	sb.WriteString("Definition gen_match_sites : list (string * bool) := [\n")
